@@ -16,7 +16,7 @@ structure Sem (σ : Type) where
   cval : Nat → σ → Bool
   ceff : Nat → σ → σ
 
-inductive Out where | normal | brk | cont
+inductive Out where | normal | brk | cont | ret
   deriving DecidableEq
 
 variable {σ : Type} (M : Sem σ)
@@ -33,11 +33,14 @@ inductive Exec : Stmt → σ → Out → σ → Prop where
   | brk {s} : Exec .brk s .brk s
   | cont {s} : Exec .cont s .cont s
   | loopF {c b p s} : M.cval c s = false → Exec (.loop c b p) s .normal (M.ceff c s)
-  | loopT {c b p s o s1 s3} : M.cval c s = true → Exec b (M.ceff c s) o s1 → o ≠ .brk →
-      Exec (.loop c b p) (M.act p s1) .normal s3 → Exec (.loop c b p) s .normal s3
+  | loopT {c b p s o s1 o3 s3} : M.cval c s = true → Exec b (M.ceff c s) o s1 → o ≠ .brk → o ≠ .ret →
+      Exec (.loop c b p) (M.act p s1) o3 s3 → Exec (.loop c b p) s o3 s3
+  | loopR {c b p s s1} : M.cval c s = true → Exec b (M.ceff c s) .ret s1 → Exec (.loop c b p) s .ret s1
   | loopB {c b p s s1} : M.cval c s = true → Exec b (M.ceff c s) .brk s1 → Exec (.loop c b p) s .normal s1
-  | foreverT {b p s o s1 s3} : Exec b s o s1 → o ≠ .brk →
-      Exec (.forever b p) (M.act p s1) .normal s3 → Exec (.forever b p) s .normal s3
+  | foreverT {b p s o s1 o3 s3} : Exec b s o s1 → o ≠ .brk → o ≠ .ret →
+      Exec (.forever b p) (M.act p s1) o3 s3 → Exec (.forever b p) s o3 s3
+  | foreverR {b p s s1} : Exec b s .ret s1 → Exec (.forever b p) s .ret s1
+  | ret {n s} : Exec (.ret n) s .ret (M.act n s)
   | foreverB {b p s s1} : Exec b s .brk s1 → Exec (.forever b p) s .normal s1
   -- switch: a `break` in a clause leaves the switch; `continue` goes on to the enclosing loop
   | swdN {d s o s'} : Exec d s o s' → o ≠ .brk → Exec (.swd d) s o s'
@@ -68,6 +71,7 @@ inductive Step (C : List Instr) : Cfg σ → Cfg σ → Prop where
   | jtF {pc stk s i} : C[pc]? = some i → i.op = "JUMPTRUE" → Step C (pc, false :: stk, s) (pc + 1, stk, s)
   | jtT {pc : Nat} {stk s i} {tgt : Nat} : C[pc]? = some i → i.op = "JUMPTRUE" →
       (tgt : Int) = (pc : Int) + i.a + 1 → Step C (pc, true :: stk, s) (tgt, stk, s)
+  | ret {pc stk s i} : C[pc]? = some i → i.op = "RETURN" → Step C (pc, stk, s) (C.length, stk, s)
 
 inductive Star (C : List Instr) : Cfg σ → Cfg σ → Prop where
   | refl {x} : Star C x x
@@ -191,7 +195,16 @@ theorem run_cnd (ok : LeavesOK M L) {C pc stk s c} (h : CodeAt C pc (L.cnd c)) :
   Star.one M L (Step.cnd (ok.cnd_ne c) h)
 
 def offs (db dc : Nat) : Out → Nat
-  | .normal => 0 | .brk => db | .cont => dc
+  | .normal => 0 | .brk => db | .cont => dc | .ret => 0
+
+/-- where control is after a statement: just past its code, at the enclosing loop's break or
+    continue target, or — after `return` — past the end of the function's code (the frame ends) -/
+def tgt (clen pc len db dc : Nat) : Out → Nat
+  | .ret => clen
+  | o => pc + len + offs db dc o
+
+theorem tgt_of_ne {clen pc len db dc : Nat} {o : Out} (h : o ≠ .ret) : tgt clen pc len db dc o = pc + len + offs db dc o := by
+  cases o <;> simp [tgt] at h ⊢
 
 /-- the re-entry point of a loop iteration: where the condition is tested -/
 def entry2 (L : Leaves) (pc : Nat) : Stmt → Nat
